@@ -69,6 +69,28 @@ fn fixed_cases() -> Vec<Vec<Entry>> {
             post(1, None, None),
         ]),
     ]);
+    // an account holding k = 3..5 commodities, of which the j-th returns to exactly zero later
+    // (by explicit postings on both sides, or with the counter-posting omitted), and is then
+    // bought again in the last variant: the zero commodity must not be shown, whatever the
+    // number of other commodities the account holds (seeded change C04-K)
+    for k in 3usize..=5 {
+        for j in 0..k {
+            for omitted in [false, true] {
+                let mut es = Vec::new();
+                for c in 0..k {
+                    let m = 10 * (c as i64 + 1) + 5;
+                    es.push(txn(1 + c as i32, vec![post(0, Some(lit(m, 1, c)), None), post(2, Some(lit(-m, 1, c)), None)]));
+                }
+                let mj = 10 * (j as i64 + 1) + 5;
+                let back = if omitted { post(3, None, None) } else { post(3, Some(lit(mj, 1, j)), None) };
+                es.push(txn(10, vec![post(0, Some(lit(-mj, 1, j)), None), back]));
+                if omitted && j % 2 == 0 {
+                    es.push(txn(12, vec![post(0, Some(lit(3, 0, j)), None), post(3, None, None)]));
+                }
+                out.push(es);
+            }
+        }
+    }
     // empty ledger, and a ledger with only a zero transaction
     out.push(vec![Entry::Comment]);
     out.push(vec![txn(1, vec![post(0, Some(lit(0, 0, 4)), None)])]);
